@@ -110,6 +110,13 @@ pub struct Scenario {
     /// and further datagrams sent to it are refused (ECONNREFUSED on a connected UDP socket)
     #[serde(default)]
     pub peer_leaves: bool,
+    /// the negotiated retransmission interval handed to the worker, in seconds of virtual time
+    #[serde(default = "default_timeout_s")]
+    pub timeout_s: u16,
+}
+
+fn default_timeout_s() -> u16 {
+    4
 }
 
 impl Scenario {
@@ -132,7 +139,11 @@ impl Scenario {
             pre_existing: false,
             fsize_limit: None,
             peer_leaves: false,
+            timeout_s: 4,
         }
+    }
+    pub fn timeout(&self) -> Duration {
+        Duration::from_secs(self.timeout_s.max(1) as u64)
     }
     pub fn nblocks(&self) -> u64 {
         (self.file_len / self.blk) as u64 + 1
@@ -619,7 +630,7 @@ impl Env {
             };
             let injected: Option<Vec<u8>> = match &ev {
                 Sev::At(permille) => {
-                    self.next_dt = TIMEOUT * (*permille as u32).min(1000) / 1000;
+                    self.next_dt = self.sc.timeout() * (*permille as u32).min(1000) / 1000;
                     continue;
                 }
                 Sev::Pass => match self.inbox.pop_front() {
@@ -815,9 +826,10 @@ impl Socket for SimSocket {
             drop(st);
             panic!("sim: receive cap exceeded (transfer does not terminate)");
         }
+        let timeout = st.env.sc.timeout();
         match st.env.on_recv() {
             None => {
-                tftpd::verif::advance(TIMEOUT);
+                tftpd::verif::advance(timeout);
                 let t = tftpd::verif::virtual_now();
                 st.trace.push(Ev::RxTimeout { t });
                 Err("simulated timeout".into())
@@ -917,7 +929,7 @@ pub fn run(sc: &Scenario, dir: &Path) -> SimResult {
         sends_after_peer_left: 0,
     }));
     let sock: Box<SimSocket> = Box::new(SimSocket { st: st.clone() });
-    let worker = Worker::new(sock, path.clone(), sc.clean, sc.blk, TIMEOUT, sc.ws, sc.repeat);
+    let worker = Worker::new(sock, path.clone(), sc.clean, sc.blk, sc.timeout(), sc.ws, sc.repeat);
     let handle = match sc.role {
         Role::Sender => worker.send(sc.handshake),
         Role::Receiver => worker.receive(),
